@@ -89,7 +89,8 @@ add('C01', 'Hypothesis-generated objective families x start points x solver sett
     'The dense Cholesky stand-in replaces scikit-sparse; exit paths are classified from the solver banners; known finding D9 (uphill trial point returned by the convergence exit) is '
     'excluded only for the last iterate of a successful solve.')
 add('C19', 'Hypothesis-generated parameterised energies, parameter changes, preconditioner states and load-step sequences through the drivers; reference-model oracle (dense Hessian / parameter Jacobian / Newton minimiser) and per-step invariants',
-    'Generated search: warm_start_increment against the dense linear predictor (both parameter slots, exact and stale preconditioner, exact landing for quadratic energies), ScaledObjective against the '
+    'Generated search: warm_start_increment against the dense linear predictor (both parameter slots, exact and stale preconditioner, exact landing for quadratic energies; also through the augmented-Lagrangian '
+    'objective with multipliers and penalties grown since construction, against the augmented Lagrangian written out by the checker), ScaledObjective against the '
     'plain objective and a dense Newton minimiser on badly scaled unknowns, and sequences of 2-4 load steps through nonlinear_equation_solve and TrustRegionSPG.solve with warm start / preconditioner '
     'refresh on or off, checking after every step that objective.p is the requested set and that a True flag refers to it. Sampling.',
     'scipy cg relative tolerance 1e-5 (2e-5 allowed) is the accuracy of the predictor; the augmented-Lagrangian and bound-constrained drivers are exercised under C04; '
